@@ -41,9 +41,14 @@ pub fn def_c02() -> PropDef {
                 Tier::Thorough => (20_000, 30, 2, 40_000),
             };
             par::run_prop(ctx, "C02", par::ParGen { cutoff: true, ..Default::default() }, rc, sb, bound, mr);
+            // (4) real threads: interleavings finer than the scheduler's yield points (e.g. two lock acquisitions
+            // inside one hooked function, seeded change C02-S2) are only reachable this way
+            par::stress(ctx, "C02");
         },
         replay: |part, case, known| {
-            if part.starts_with("par") {
+            if part.starts_with("stress") {
+                par::stress_replay(case, "C02")
+            } else if part.starts_with("par") {
                 par::replay(part, case, known, "C02")
             } else if part == "seq-every-poll" {
                 match decode::<SolveCase>(case) {
